@@ -15,15 +15,35 @@ import collections, os, shutil, tempfile
 from fractions import Fraction as F
 import common, translate, lpdump, gencheck, e1
 
-PROOFS = {"encode_paths": "EncPathsSpec.v", "encode_kfd": "EncKfdSpec.v", "encode_kpc": "EncKpcSpec.v", "encode_kfdw": "EncKfdwSpec.v"}
+PROOFS = {"encode_paths": "EncPathsSpec.v", "encode_kfd": "EncKfdSpec.v", "encode_kpc": "EncKpcSpec.v", "encode_kfdw": "EncKfdwSpec.v",
+          "encode_klae": "EncKlaeSpec.v", "encode_klae_given": "EncKlaeGivenSpec.v", "encode_klae_obj": "EncKlaeObjSpec.v",
+          "encode_kmpe": "EncKmpeSpec.v", "encode_kmpe_given": "EncKmpeGivenSpec.v", "encode_kmpe_obj": "EncKmpeObjSpec.v"}
+HELPER_PROOFS = {"binprod": "BinProdSpec.v", "pwc": "PwcSpec.v", "intprod": "IntProdSpec.v"}
+# what is translated / proved together: the transfer theorems of a family speak about all of its encoders
+FAMILIES = {
+    "base": dict(targets=["encode_paths", "encode_kfd", "encode_kpc", "encode_kfdw"], transfer="EncTransfer.v",
+                 transfer_what="the transfer theorems (gen_kfd_sound, gen_kfd_feasible_iff_cons, gen_kpc_feasible_iff)"),
+    "klae": dict(targets=["encode_paths", "encode_klae", "encode_klae_given", "encode_klae_obj"], transfer="EncKlaeTransfer.v",
+                 transfer_what="the transfer theorems (gen_klae_lp, gen_klae_optimal, gen_klae_enc_sound, gen_klae_given_optimal)"),
+    "kmpe": dict(targets=["encode_paths", "encode_kmpe", "encode_kmpe_given", "encode_kmpe_obj"], transfer="EncKmpeTransfer.v", helpers=["binprod", "pwc", "intprod"],
+                 transfer_what="the transfer theorems (gen_kmpe_lp, gen_kmpe_optimal, gen_kmpe_given_optimal)"),
+}
+HAS_OBJ = ("encode_kfdw", "encode_klae_obj", "encode_kmpe_obj")
 ORDER = ["binprod", "encode_paths", "encode_kfd", "encode_kpc"]
-FAMN = {"fEdge": 0, "fPi": 1, "fW": 2, "fR": 6, "fPos": 10, "fLen": 11}
-N_OUT = {"encode_paths": 7, "encode_kfd": 2, "encode_kpc": 0, "encode_kfdw": 0}            # number of assigned attributes after (outcome, cols, rows)
+FAMN = {"fEdge": 0, "fPi": 1, "fW": 2, "fSlack": 3, "fGamma": 4, "fErr": 5, "fR": 6, "fPos": 10, "fLen": 11, "fFactor": 20, "fSSlack": 21}
+N_OUT = {"encode_paths": 7, "encode_kfd": 2, "encode_kpc": 0, "encode_kfdw": 0, "encode_klae": 4, "encode_klae_given": 2, "encode_klae_obj": 0,
+         "encode_kmpe": 6, "encode_kmpe_given": 4, "encode_kmpe_obj": 0}            # number of assigned attributes after (outcome, cols, rows)
 STATEMENT = {
-    "encode_paths": "_encode_paths adds exactly the edge / constraint variables and the rows 10a (one per layer), 10c (per layer and inner node), 7a (per layer and constraint) and 7b (per constraint) of the documented formulation",
+    "encode_paths": "_encode_paths adds exactly the edge / constraint variables and the rows 10a (one per layer), 10c (per layer and inner node), 7a (per layer and constraint) and 7b (per constraint) of the documented formulation (with encode_edge_position also the position / path-length variables and their defining rows)",
     "encode_kfd": "_encode_flow_decomposition adds exactly the pi / w variables, for every non-ignored edge the four product rows per layer and the row sum_i pi(u,v,i) == flow(u,v)",
     "encode_kpc": "_encode_path_cover adds exactly one row sum_i x(u,v,i) >= 1 per non-ignored edge",
     "encode_kfdw": "_encode_flow_decomposition_with_given_weights adds exactly, per non-ignored edge, the row sum_i w_i x(u,v,i) == flow(u,v), the row 'at most original_k source edges used', and minimises the number of source edges used",
+    "encode_klae": "_encode_leastabserrors_decomposition adds exactly the pi / weight / error variables (bounds 0..w_max) and, for every non-ignored edge, per layer the four product rows (pi == 0 / pi == w_i where the edge variable is fixed to 0 / 1) and the rows f - sum_i pi <= err, sum_i pi - f <= err",
+    "encode_klae_given": "_encode_leastabserrors_decomposition_with_given_weights adds exactly the error variables and, per non-ignored edge, the rows f - sum_i w_i x(u,v,i) <= err, -f + sum_i w_i x(u,v,i) <= err, and the row 'at most original_k source edges used'",
+    "encode_klae_obj": "_encode_objective minimises sum over the non-ignored edges of error_scaling.get(e, 1) * err(e)",
+    "encode_kmpe": "_encode_minpatherror_decomposition (without path_length_factors) adds exactly the weight / pi / slack / gamma variables (bounds 0..w_max) and for every non-ignored edge per layer the pi and gamma product rows (pi == 0, gamma == 0 / pi == w_i, gamma == slack_i where the edge variable is fixed to 0 / 1) and the rows (f - sum_i pi) * scaling <= sum_i gamma, >= - sum_i gamma",
+    "encode_kmpe_given": "_encode_minpatherror_decomposition_with_given_weights (without path_length_factors) adds exactly the slack / gamma variables and, per non-ignored edge, the gamma product rows and (f - sum_i w_i x(u,v,i)) * scaling <= sum_i gamma, >= - sum_i gamma, and the row 'at most original_k source edges used'",
+    "encode_kmpe_obj": "_encode_objective minimises the sum of the path slacks",
 }
 cN = gencheck.cN; cL = gencheck.cL; cE = gencheck.cE; cQ = gencheck.cQ
 
@@ -66,6 +86,33 @@ def fn_call(name, m, ids):
                 cL([cQ(w) for w in m.solution_weights_superset]), cZ(m.original_k), flows, "true" if m.is_solved() else "false"] + \
                ["true" if oo.get(o, False) else "false" for o in ("optimize_with_safe_paths", "optimize_with_safe_sequences", "optimize_with_safe_zero_edges", "optimize_with_flow_safe_paths")]
         return "(let r := fn %s in enc_emitted (fst (fst r), snd (fst r)) ++ [enc_obj (snd r)])" % " ".join(args)      # (outcome, cols, rows, objective)
+    elif name in ("encode_klae", "encode_klae_given"):
+        flows = cL(["(%s, %s)" % (cE((ids[u], ids[v])), cQ(d[m.flow_attr])) for u, v, d in st.edges(data=True) if m.flow_attr in d])
+        ign = cL([cE((ids[u], ids[v])) for (u, v) in m.edges_to_ignore if u in ids and v in ids])
+        if name == "encode_klae":
+            args = [G, cZ(m.k), cK3(ids, m.edge_indexes), cQ(m.w_max), ign, cK3(ids, m.edge_indexes), cL([cZ(i) for i in m.path_indexes]),
+                    cK3(ids, list(m.edges_set_to_zero)), cK3(ids, list(m.edges_set_to_one)), flows, "true" if m.weight_type == int else "false"]
+        else:
+            args = [G, cZ(m.k), cK3(ids, m.edge_indexes), cQ(m.w_max), ign, cL([cQ(w) for w in m.solution_weights_superset]), cZ(m.original_k),
+                    "true" if m.allow_empty_paths else "false", flows, "true" if m.weight_type == int else "false"]
+    elif name in ("encode_kmpe", "encode_kmpe_given"):
+        flows = cL(["(%s, %s)" % (cE((ids[u], ids[v])), cQ(d[m.flow_attr])) for u, v, d in st.edges(data=True) if m.flow_attr in d])
+        ign = cL([cE((ids[u], ids[v])) for (u, v) in m.edges_to_ignore if u in ids and v in ids])
+        sc = cL(["(%s, %s)" % (cE((ids[u], ids[v])), cQ(c)) for (u, v), c in m.edge_error_scaling.items() if u in ids and v in ids])
+        common_args = [G, cZ(m.k), cK3(ids, m.edge_indexes), cQ(m.w_max), ign, cK3(ids, m.edge_indexes), cL([cZ(i) for i in m.path_indexes]), sc,
+                       cL([cQ(c) for c in m.path_length_factors]), cL(["(%s, %s)" % (cQ(r[0]), cQ(r[1])) for r in m.path_length_ranges]),
+                       cL([cZ(i) for i in m.path_length_vars])]
+        if name == "encode_kmpe":
+            args = common_args + [cK3(ids, list(m.edges_set_to_zero)), cK3(ids, list(m.edges_set_to_one)), flows, "true" if m.weight_type == int else "false"]
+        else:
+            args = common_args + [cL([cQ(w) for w in m.solution_weights_superset]), cZ(m.original_k), "true" if m.allow_empty_paths else "false", flows,
+                                  "true" if m.weight_type == int else "false"]
+    elif name == "encode_kmpe_obj":
+        return "(let r := fn %s %s in enc_emitted (fst (fst r), snd (fst r)) ++ [enc_obj (snd r)])" % (cZ(m.k), cL([cZ(i) for i in m.path_slacks_vars]))
+    elif name == "encode_klae_obj":
+        be = cL([cE((ids[u], ids[v])) for (u, v) in m.edge_indexes_basic])
+        sc = cL(["(%s, %s)" % (cE((ids[u], ids[v])), cQ(c)) for (u, v), c in m.edge_error_scaling.items() if u in ids and v in ids])
+        return "(let r := fn %s %s %s in enc_emitted (fst (fst r), snd (fst r)) ++ [enc_obj (snd r)])" % (cL([cE((ids[u], ids[v])) for (u, v) in m.edge_errors_vars]), be, sc)
     else:
         args = [G, cZ(m.k), cons, cQ(m.subpath_constraints_coverage), cL([cE((ids[u], ids[v])) for (u, v) in m.edges_to_ignore]), cK3(ids, m.edge_indexes)]
     return "enc_emitted (%s(fn %s)%s)" % (drop, " ".join(args), close)
@@ -75,11 +122,15 @@ def fresh_solver(m):
     from flowpaths.utils.solverwrapper import SolverWrapper
     lpdump.install(); lpdump.reset()
     m.solver = SolverWrapper()
-    if hasattr(m, "edges_set_to_zero"): m.edges_set_to_zero = {}
-    if hasattr(m, "edges_set_to_one"): m.edges_set_to_one = {}
+    fixed = getattr(m, "_gen_fixed", None)      # (zero, one): edge variables the instance stream fixes (the branch of the safety optimisations)
+    if hasattr(m, "edges_set_to_zero"): m.edges_set_to_zero = dict(fixed[0]) if fixed else {}
+    if hasattr(m, "edges_set_to_one"): m.edges_set_to_one = dict(fixed[1]) if fixed else {}
 
 
 def dump(m, ids):
+    if hasattr(m, "edge_error_scaling"):
+        import e1err
+        return lpdump.dump_impl(m.solver, e1err.colkey(m, ids))
     return lpdump.dump_impl(m.solver, e1.colkey_dag(m, ids, extra={"path_length": lambda i: (11, i)}))
 
 
@@ -103,6 +154,22 @@ def real(name, m, ids):
             m._encode_paths(); return added(empty, dump(m, ids))
         m._encode_paths(); before = dump(m, ids)
         if name == "encode_kfd": m._encode_flow_decomposition()
+        elif name == "encode_klae": m._encode_leastabserrors_decomposition()
+        elif name == "encode_klae_given": m._encode_leastabserrors_decomposition_with_given_weights()
+        elif name == "encode_kmpe": m._encode_minpatherror_decomposition()
+        elif name == "encode_kmpe_given": m._encode_minpatherror_decomposition_with_given_weights()
+        elif name == "encode_kmpe_obj":
+            if m.solution_weights_superset is not None: m._encode_minpatherror_decomposition_with_given_weights()
+            else: m._encode_minpatherror_decomposition()
+            before = dump(m, ids); m._encode_objective()
+            after = dump(m, ids); r = added(before, after); r["obj"] = after["obj"]; r["sense"] = after["sense"]
+            return r
+        elif name == "encode_klae_obj":
+            if m.solution_weights_superset is not None: m._encode_leastabserrors_decomposition_with_given_weights()
+            else: m._encode_leastabserrors_decomposition()
+            before = dump(m, ids); m._encode_objective()
+            after = dump(m, ids); r = added(before, after); r["obj"] = after["obj"]; r["sense"] = after["sense"]
+            return r
         elif name == "encode_kfdw":
             m._encode_flow_decomposition_with_given_weights()
             after = dump(m, ids); r = added(before, after); r["obj"] = after["obj"]; r["sense"] = after["sense"]
@@ -141,7 +208,15 @@ def spec(name, m, ids):
                 cols[(6, i, j)] = (F(0), F(1), True)
                 rows.append(nrow([(E(e[0], e[1], i), ln(e)) for e in c] + [((6, i, j), -total * F(cov))], ">=", 0))
             rows.append(nrow([((6, i, j), 1) for i in range(k)], ">=", 1))
-        if m.encode_edge_position: return None          # not part of the statement (the hand-written model leaves it out too)
+        if m.encode_edge_position:      # position(u,v,i) == sum of len(e) x(e,i) over the edges e whose head reaches u; path_length(i) == sum over all edges
+            ln2 = lambda a, b: F(st[a][b].get(m.length_attr, 1))
+            ml = F(st.number_of_nodes()) if m.length_attr is None else sum((ln2(a, b) for a, b in st.edges()), F(0))
+            for i in range(k):
+                for u, v in st.edges():
+                    cols[(10, ids[u], ids[v], i)] = (F(0), ml, True)
+                    rows.append(nrow([((10, ids[u], ids[v], i), 1)] + [(E(a, b, i), -ln2(a, b)) for (a, b) in st.reachable_edges_rev_from[u]], "==", 0))
+                cols[(11, i)] = (F(0), ml, True)
+                rows.append(nrow([((11, i), 1)] + [(E(a, b, i), -ln2(a, b)) for (a, b) in st.edges()], "==", 0))
     elif name == "encode_kfd":
         isint = m.weight_type == int; W = F(m.w_max)
         for i in range(k):
@@ -161,6 +236,71 @@ def spec(name, m, ids):
         src = [(E(s, v, i), 1) for v in st.successors(s) for i in range(k)]
         rows.append(nrow(src, "<=", m.original_k))
         return {"exc": None, "cols": {}, "rows": sorted(rows, key=repr), "obj": {kk: F(c) for kk, c in src}, "sense": "min"}
+    elif name in ("encode_klae", "encode_klae_given"):
+        isint = m.weight_type == int; W = F(m.w_max)
+        Er = lambda u, v: (5, ids[u], ids[v])
+        basic = [(u, v) for u, v in st.edges() if (u, v) not in m.edges_to_ignore]
+        if any(m.flow_attr not in st[u][v] for u, v in basic) and not (name == "encode_klae_given" and (len(m.solution_weights_superset) != k or not m.allow_empty_paths)):
+            return {"exc": "KeyError", "cols": {}, "rows": []}
+        for u, v in basic: cols[Er(u, v)] = (F(0), W, isint)
+        if name == "encode_klae":
+            for i in range(k):
+                cols[(2, i)] = (F(0), W, isint)
+                for u, v in st.edges(): cols[(1, ids[u], ids[v], i)] = (F(0), W, isint)
+            if basic and k == 0: return {"exc": "UnboundLocalError", "cols": {}, "rows": []}
+            for u, v in basic:
+                for i in range(k):
+                    x, w, p = E(u, v, i), (2, i), (1, ids[u], ids[v], i)
+                    if (u, v, i) in m.edges_set_to_zero: rows.append(nrow([(p, 1)], "==", 0))
+                    elif (u, v, i) in m.edges_set_to_one: rows.append(nrow([(p, 1), (w, -1)], "==", 0))
+                    else: rows += [nrow([(p, 1), (x, -W)], "<=", 0), nrow([(p, 1)], ">=", 0), nrow([(p, 1), (w, -1)], "<=", 0), nrow([(p, 1), (w, -1), (x, -W)], ">=", -W)]
+                f = st[u][v][m.flow_attr]
+                rows.append(nrow([((1, ids[u], ids[v], i), -1) for i in range(k)] + [(Er(u, v), -1)], "<=", -F(f)))
+                rows.append(nrow([((1, ids[u], ids[v], i), 1) for i in range(k)] + [(Er(u, v), -1)], "<=", F(f)))
+        else:
+            ws = m.solution_weights_superset
+            if len(ws) != k or not m.allow_empty_paths: return {"exc": "ValueError", "cols": {}, "rows": []}
+            for u, v in basic:
+                f = st[u][v][m.flow_attr]
+                rows.append(nrow([(E(u, v, i), -F(ws[i])) for i in range(k)] + [(Er(u, v), -1)], "<=", -F(f)))
+                rows.append(nrow([(E(u, v, i), F(ws[i])) for i in range(k)] + [(Er(u, v), -1)], "<=", F(f)))
+            rows.append(nrow([(E(s, v, i), 1) for v in st.successors(s) for i in range(k)], "<=", m.original_k))
+    elif name in ("encode_kmpe", "encode_kmpe_given"):
+        if len(m.path_length_factors) > 0: return None            # helper blocks: covered by the correspondence (and by C12's statements), not restated here
+        isint = m.weight_type == int; W = F(m.w_max)
+        basic = [(u, v) for u, v in st.edges() if (u, v) not in m.edges_to_ignore]
+        given = name == "encode_kmpe_given"
+        if given and (len(m.solution_weights_superset) != k or not m.allow_empty_paths): return {"exc": "ValueError", "cols": {}, "rows": []}
+        if any(m.flow_attr not in st[u][v] for u, v in basic): return {"exc": "KeyError", "cols": {}, "rows": []}
+        if basic and k == 0: return {"exc": "UnboundLocalError", "cols": {}, "rows": []}
+        Gm = lambda u, v, i: (4, ids[u], ids[v], i)
+        for i in range(k):
+            cols[(3, i)] = (F(0), W, isint)
+            if not given: cols[(2, i)] = (F(0), W, isint)
+            for u, v in st.edges():
+                cols[Gm(u, v, i)] = (F(0), W, False)
+                if not given: cols[(1, ids[u], ids[v], i)] = (F(0), W, isint)
+        zero = getattr(m, "edges_set_to_zero", {}) if not given else {}; one = getattr(m, "edges_set_to_one", {}) if not given else {}
+        for u, v in basic:
+            f = F(st[u][v][m.flow_attr]); sc = F(m.edge_error_scaling.get((u, v), 1))
+            for prod, cvar in ((lambda i: (1, ids[u], ids[v], i), lambda i: (2, i)), (lambda i: Gm(u, v, i), lambda i: (3, i))):
+                if given and prod(0)[0] == 1: continue
+                for i in range(k):
+                    x, w, p = E(u, v, i), cvar(i), prod(i)
+                    if (u, v, i) in zero: rows.append(nrow([(p, 1)], "==", 0))
+                    elif (u, v, i) in one: rows.append(nrow([(p, 1), (w, -1)], "==", 0))
+                    else: rows += [nrow([(p, 1), (x, -W)], "<=", 0), nrow([(p, 1)], ">=", 0), nrow([(p, 1), (w, -1)], "<=", 0), nrow([(p, 1), (w, -1), (x, -W)], ">=", -W)]
+            if given: lin = [(E(u, v, i), -sc * F(m.solution_weights_superset[i])) for i in range(k)]
+            else: lin = [((1, ids[u], ids[v], i), -sc) for i in range(k)]
+            rows.append(nrow(lin + [(Gm(u, v, i), -1) for i in range(k)], "<=", -f * sc))
+            rows.append(nrow(lin + [(Gm(u, v, i), 1) for i in range(k)], ">=", -f * sc))
+        if given: rows.append(nrow([(E(s, v, i), 1) for v in st.successors(s) for i in range(k)], "<=", m.original_k))
+    elif name == "encode_kmpe_obj":
+        return {"exc": None, "cols": {}, "rows": [], "obj": {(3, i): F(1) for i in range(k)}, "sense": "min"}
+    elif name == "encode_klae_obj":
+        basic = [(u, v) for u, v in st.edges() if (u, v) not in m.edges_to_ignore]
+        ob = {(5, ids[u], ids[v]): F(m.edge_error_scaling.get((u, v), 1)) for u, v in basic}
+        return {"exc": None, "cols": {}, "rows": [], "obj": {kk: c for kk, c in ob.items() if c != 0}, "sense": "min"}
     else:
         for u, v in st.edges():
             if (u, v) in m.edges_to_ignore: continue
@@ -223,6 +363,70 @@ def kpc_models(ctx, n, stream):
     return out
 
 
+def klae_models(ctx, n, stream, given=False):
+    """kLeastAbsErrors objects of the C07 engine's instance stream (edge and node origin, ignore sets, error_scaling incl. 0, additional starts /
+    ends, constraints); one in five additionally has some edge variables FIXED to 0 / 1 (edges_set_to_zero / edges_set_to_one: the branch of
+    _encode_leastabserrors_decomposition that the constructor never reaches on its own)"""
+    import flowpaths as fp, gen2, errlib
+    out = []; i = 0
+    while len(out) < n and i < 20 * n:
+        rng = ctx.rng(stream, i); i += 1
+        args, info = gen2.rand_err_args(rng, "lae")
+        args = dict(args, k=rng.choice([1, 2, 2, 3]), solver_options=dict(errlib.SOLVER))
+        if given:
+            if not args.get("solution_weights_superset"):
+                conv = int if args["weight_type"] == int else float
+                args["solution_weights_superset"] = [conv(rng.choice([1, 2, 3, 5])) for _ in range(rng.randint(1, 3))]
+        else: args.pop("solution_weights_superset", None)
+        try:
+            m = fp.kLeastAbsErrors(**errlib.clean_args(args))
+        except Exception:
+            continue
+        m.edges_set_to_zero, m.edges_set_to_one = {}, {}          # as during the encoder calls below (fresh_solver)
+        if not given and rng.random() < 0.2:
+            keys = [(u, v, j) for (u, v) in m.G.edges() if (u, v) not in m.edges_to_ignore for j in range(m.k)]
+            rng.shuffle(keys); a = rng.randint(0, min(2, len(keys))); b = rng.randint(0, min(2, len(keys) - a))
+            m._gen_fixed = ({x: True for x in keys[:a]}, {x: True for x in keys[a:a + b]})
+            m.edges_set_to_zero, m.edges_set_to_one = dict(m._gen_fixed[0]), dict(m._gen_fixed[1])
+        out.append((m, errlib.describe(args)))
+    return out
+
+
+def klae_given_models(ctx, n, stream): return klae_models(ctx, n, stream, given=True)
+
+
+def kmpe_models(ctx, n, stream, given=False):
+    """kMinPathError objects of the C08 engine's instance stream (path_length_ranges / factors, length_attr, scaling, ignore sets, node origin ...);
+    one in five without given weights additionally has edge variables FIXED to 0 / 1"""
+    import flowpaths as fp, gen2, errlib
+    out = []; i = 0
+    while len(out) < n and i < 20 * n:
+        rng = ctx.rng(stream, i); i += 1
+        args, info = gen2.rand_err_args(rng, "mpe", nmax=rng.choice([3, 4, 5]))
+        args = dict(args, k=rng.choice([None, 1, 2, 3]), solver_options=dict(errlib.SOLVER))
+        if given:
+            if not args.get("solution_weights_superset"):
+                conv = int if args["weight_type"] == int else float
+                args["solution_weights_superset"] = [conv(rng.choice([1, 2, 3, 5])) for _ in range(rng.randint(1, 3))]
+        else: args.pop("solution_weights_superset", None)
+        try:
+            m = fp.kMinPathError(**errlib.clean_args(args))
+        except Exception:
+            continue
+        if m.k is None or m.k > 4: continue
+        m.edges_set_to_zero, m.edges_set_to_one = {}, {}
+        if not given and rng.random() < 0.2:
+            keys = [(u, v, j) for (u, v) in m.G.edges() if (u, v) not in m.edges_to_ignore for j in range(m.k)]
+            rng.shuffle(keys); a = rng.randint(0, min(2, len(keys))); b = rng.randint(0, min(2, len(keys) - a))
+            m._gen_fixed = ({x: True for x in keys[:a]}, {x: True for x in keys[a:a + b]})
+            m.edges_set_to_zero, m.edges_set_to_one = dict(m._gen_fixed[0]), dict(m._gen_fixed[1])
+        out.append((m, errlib.describe(args)))
+    return out
+
+
+def kmpe_given_models(ctx, n, stream): return kmpe_models(ctx, n, stream, given=True)
+
+
 # ------------------------------------------------------------------------------------------ driver
 def run_generated_kfd(ctx):
     run(ctx, [(["encode_paths", "encode_kfd"], kfd_models, "genenc-kfd", 36), (["encode_kfdw"], kfdw_models, "genenc-kfdw", 16)])
@@ -232,7 +436,18 @@ def run_generated_kpc(ctx):
     run(ctx, [(["encode_kpc"], kpc_models, "genenc-kpc", 36)])
 
 
-def run(ctx, groups):
+def run_generated_klae(ctx):
+    """end of engines/c07.py::run"""
+    run(ctx, [(["encode_klae", "encode_klae_obj"], klae_models, "genenc-klae", 30), (["encode_klae_given"], klae_given_models, "genenc-klae-given", 14)], family="klae")
+
+
+def run_generated_kmpe(ctx):
+    """end of engines/c08.py::run"""
+    run(ctx, [(["encode_paths", "encode_kmpe", "encode_kmpe_obj"], kmpe_models, "genenc-kmpe", 30), (["encode_kmpe_given"], kmpe_given_models, "genenc-kmpe-given", 14)], family="kmpe")
+
+
+def run(ctx, groups, family="base"):
+    fam = FAMILIES[family]
     names = [n for g in groups for n in g[0]]
     base = os.path.join(common.OUT, "work", "gen"); os.makedirs(base, exist_ok=True)
     build = tempfile.mkdtemp(prefix="enc_", dir=base)
@@ -251,15 +466,18 @@ def run(ctx, groups):
         extra_ok = prove_extra(ctx, build, "EncCommon.v", [])            # lemmas shared by the scripts (mention no generated definition)
         # every encoder (and the generated binary-product helper the flow encoder calls) is translated and its script checked in both runs:
         # the transfer theorems (EncTransfer.v) speak about all of them
-        okb, pb = gencheck.translate_and_prove(ctx, "binprod", build, "BinProdSpec.v", compiled)
-        if pb: ctx.report("generated-model tie of binprod (called by the flow encoder) no longer checks: " + pb[0][:300], {"generated_model": "binprod", "broken": pb}, concrete=False)
-        for name in ["encode_paths", "encode_kfd", "encode_kpc", "encode_kfdw"]:
+        okb, pb = True, []
+        for h in fam.get("helpers", ["binprod"]):       # the generated wrapper helpers the encoders call
+            okh, ph = gencheck.translate_and_prove(ctx, h, build, HELPER_PROOFS[h], compiled) if extra_ok else (False, ["EncCommon.v does not compile"])
+            okb = okb and okh; pb += ph
+            if ph: ctx.report("generated-model tie of %s (called by the encoders) no longer checks: %s" % (h, ph[0][:300]), {"generated_model": h, "broken": ph}, concrete=False)
+        for name in fam["targets"]:
             if not os.path.exists(os.path.join(common.COQ, "gen_proofs", PROOFS[name])): continue
             results[name] = gencheck.translate_and_prove(ctx, name, build, PROOFS[name], compiled) if extra_ok else (False, ["EncCommon.v does not compile"])
         tproblems = []
         if all(results[n][0] and not results[n][1] for n in results) and okb and not pb:
-            if not prove_extra(ctx, build, "EncTransfer.v", tproblems):
-                ctx.report("the transfer theorems (gen_kfd_sound, gen_kfd_feasible_iff_cons, gen_kpc_feasible_iff) no longer check: " + "; ".join(tproblems)[:400],
+            if os.path.exists(os.path.join(common.COQ, "gen_proofs", fam["transfer"])) and not prove_extra(ctx, build, fam["transfer"], tproblems):
+                ctx.report(fam["transfer_what"] + " no longer check: " + "; ".join(tproblems)[:400],
                            {"generated_model": "transfer", "broken": tproblems}, concrete=False)
         cache = {}
         for name in results:
@@ -279,7 +497,7 @@ def run(ctx, groups):
 
 def decode(name, enc):
     import gencheck12
-    if name != "encode_kfdw": return gencheck12.decode(enc)
+    if name not in HAS_OBJ: return gencheck12.decode(enc)
     r = gencheck12.decode(enc[:-1]); o = enc[-1]
     r["obj"] = {}; r["sense"] = "min"
     if o[0] != 0:
@@ -328,7 +546,7 @@ def one(ctx, name, build, proved, ms, models, stream):
         ids = e1.ids_of(m.G)
         r = real(name, m, ids); reals.append(r)
         ctx.count("generated_model", "property_evaluations")
-        ctx.case(["generated-enc", name, desc], nontrivial=len(r["rows"]) >= 4)
+        ctx.case(["generated-enc", name, desc], nontrivial=len(r["rows"]) >= 4 or len(r.get("obj", {})) >= 1)
         ctx.dist("generated:%s:%s" % (name, r["exc"] or "%d+ rows" % (10 * (len(r["rows"]) // 10))))
         want = spec(name, m, ids)
         if want is not None and concrete is None:
@@ -375,7 +593,9 @@ def replay(ctx, body):
     name = body["generated_model"]
     if name not in STATEMENT:
         print("nothing to replay for", name, "; broken:", body.get("broken")); return False
-    models, stream = (kpc_models, "genenc-kpc") if name == "encode_kpc" else (kfdw_models, "genenc-kfdw") if name == "encode_kfdw" else (kfd_models, "genenc-kfd")
+    models, stream = {"encode_kpc": (kpc_models, "genenc-kpc"), "encode_kfdw": (kfdw_models, "genenc-kfdw"), "encode_klae": (klae_models, "genenc-klae"),
+                      "encode_klae_obj": (klae_models, "genenc-klae"), "encode_klae_given": (klae_given_models, "genenc-klae-given"),
+                      "encode_kmpe": (kmpe_models, "genenc-kmpe"), "encode_kmpe_obj": (kmpe_models, "genenc-kmpe"), "encode_kmpe_given": (kmpe_given_models, "genenc-kmpe-given")}.get(name, (kfd_models, "genenc-kfd"))
     for sfx in ("", "-search"):
         for m, desc in models(ctx, 36 if not sfx else 150, stream + sfx):
             ids = e1.ids_of(m.G); want = spec(name, m, ids)
